@@ -10,6 +10,6 @@ rm -rf /verif/.work/q && mkdir -p /verif/.work/q
 time ./target/debug/rre-harness gen $1 $T 1 /verif/.work/q
 wc -l < /verif/.work/q/cases.txt
 time ../ocaml/_build/default/model_runner.exe $2 /verif/.work/q/cases.txt /verif/.work/q/impl.out > /verif/.work/q/model.out
-echo "mismatches:"; cut -f1 /verif/.work/q/model.out | diff - /verif/.work/q/impl.out | grep -c '^<' || true
+echo "mismatches:"; python3 /verif/tools/qdiff.py
 echo "okimpl okmodel:"; cut -f2,3 /verif/.work/q/model.out | sort | uniq -c
 sort /verif/.work/q/meta.out | uniq -c | sort -rn | head -20
